@@ -51,6 +51,21 @@ def enzymes():
 
 
 @functools.lru_cache(None)
+def inside_cutters():
+    """Enzymes (5' overhang, unambiguous non-palindromic site, single cut) that cut INSIDE their own recognition site: the sticky end
+    is part of the site.  No Golden Gate kit uses one, but the library builds classes over them.  -> list of (name, Geometry)"""
+    seen = {}
+    for e in sorted(Restriction.AllEnzymes, key=lambda e: e.__name__):
+        if e.is_blunt() or e.is_unknown() or e.is_palindromic() or not e.is_5overhang() or e.scd5 is not None or e.fst5 is None:
+            continue
+        if set(e.site) - set("ACGT") or e.fst5 > len(e.site) or e.fst5 <= 0:
+            continue
+        if e.elucidate() not in seen:
+            seen[e.elucidate()] = (e.__name__, rm.Geometry(e.__name__, e.site, e.fst5 - len(e.site), -e.ovhg))
+    return sorted(seen.values(), key=lambda t: t[0])
+
+
+@functools.lru_cache(None)
 def three_prime_enzymes():
     """One representative per distinct geometry among the enzymes that leave a 3' overhang downstream of an unambiguous,
     non-palindromic site of 4-7 letters (single cut, overhang window entirely outside the site).  Usable through
